@@ -283,7 +283,7 @@ def _same(a, b):
     return a == b
 
 
-def gen_call(rng, kind, tick, known, extreme, narrow):
+def gen_call(rng, kind, tick, known, extreme, narrow, top=0):
     """one call over the non-numpy API; `known` = order records as Python sees them (for ids / current prices / volumes).
     narrow scripts keep every bid at one price and every ask one tick above it, with occasional small crossing orders: queue position
     within a level (and so every priority-losing or -keeping modification) becomes visible in the trades"""
@@ -292,8 +292,8 @@ def gen_call(rng, kind, tick, known, extreme, narrow):
     def grid(bid=None):
         if narrow and bid is not None:
             cross = rng.random() < 0.3
-            return (20 if (bid != cross) else 21) * tick
-        return (20 + rng.randrange(0, 5)) * tick
+            return (top + (20 if (bid != cross) else 21)) * tick
+        return (top + 20 + rng.randrange(0, 5)) * tick
     if r < 0.5 or not known:
         bid = rng.random() < 0.5
         vol = rng.randrange(1, 6) if narrow else rng.randrange(1, 20)
@@ -337,8 +337,10 @@ def check_c18_twin(core, rng, n, replay_bin):
         tick = rng.choice([1, 2, 5])
         extreme = (k % 4) >= 2
         narrow = (k % 6) >= 3
+        # one script in eight lives near the top of the 32-bit price range, one in eight starts with the clock just below a multiple of 2^32
+        top = ((2 ** 32 - 1) // tick - 60) if k % 8 == 5 else 0
         trading0 = rng.random() < 0.85
-        script = {'kind': kind, 'tick': tick, 'start_time': rng.choice([0, 0, 7, 1000]), 'trading': trading0, 'seed': rng.randrange(2 ** 40), 'step_size': rng.choice([1000, 1000, 50, 64]), 'calls': []}
+        script = {'kind': kind, 'tick': tick, 'start_time': (2 ** 32 - rng.randrange(1, 30)) if k % 8 == 3 else rng.choice([0, 0, 7, 1000]), 'trading': trading0, 'seed': rng.randrange(2 ** 40), 'step_size': rng.choice([1000, 1000, 50, 64]), 'calls': []}
         obj = core.OrderBook(script['start_time'], tick, trading0) if kind == 'book' else core.StepEnv(script['seed'], script['start_time'], tick, script['step_size'], trading0)
         obs = book_obs_py if kind == 'book' else env_obs_py
         rec = [{'ret': None, 'obs': _norm(obs(obj))}]
@@ -350,9 +352,9 @@ def check_c18_twin(core, rng, n, replay_bin):
                     t += rng.randrange(1, 4)      # the documented usage: the clock advances between arrivals
                     c = ['set_time', t]
                 else:
-                    c = gen_call(rng, kind, tick, rec[-1]['obs']['orders'], extreme, narrow)
+                    c = gen_call(rng, kind, tick, rec[-1]['obs']['orders'], extreme, narrow, top)
             else:
-                c = ['step'] if rng.random() < 0.22 else gen_call(rng, kind, tick, rec[-1]['obs']['orders'], extreme, narrow)
+                c = ['step'] if rng.random() < 0.22 else gen_call(rng, kind, tick, rec[-1]['obs']['orders'], extreme, narrow, top)
             script['calls'].append(c)
             ret, exc = _guard(lambda: getattr(obj, c[0])(*c[1:]))
             if ret == 'panic':
